@@ -131,6 +131,10 @@ def _build():
                 numeric={"measures": ["mean", "sum"], "numarr": NA}), (1,), NAV, quick=3, thorough=4)
     _reg(Schema("numarr_x_mr", [M], [("mr", 0)],
                 numeric={"measures": ["mean"], "numarr": NA}), (1,), NAV, quick=2, thorough=3)
+    # numeric array grouped by TWO variables (3-D: one partition per array item)
+    _reg(Schema("numarr_x_cat_x_cat", [A["first"], B["mid"]], [("cat", 0), ("cat", 1)],
+                numeric={"measures": ["mean", "sum"], "numarr": NA}), (1,), NAV, quick=2, thorough=3)
+    # (a numeric array grouped by CAT and MR has four raw dimensions: the library defines no axis order for it)
     _reg(Schema("numarr_1d", [], [], numeric={"measures": ["mean", "sum"], "numarr": NA}),
          (1,), NAV, quick=4, thorough=6)
 
@@ -272,10 +276,17 @@ def check(space, state):
         # ---- slice ----
         rows, cols = orc.rows, orc.cols
         nr, nc = len(rows), len(cols)
+        fixed_item = getattr(orc, "num_item", None)
+
+        def item_of(i):
+            """array item whose numeric value a cell of row i reports"""
+            if not numarr:
+                return None
+            return fixed_item if fixed_item is not None else i
         if numeric and (has_valid or numarr):
-            exp_u = [[_numeric_expect(orc.members(i, j), "valid_unweighted", False, i if numarr else None)
+            exp_u = [[_numeric_expect(orc.members(i, j), "valid_unweighted", False, item_of(i))
                       for j in range(nc)] for i in range(nr)]
-            exp_w = [[_numeric_expect(orc.members(i, j), "valid_weighted", True, i if numarr else None)
+            exp_w = [[_numeric_expect(orc.members(i, j), "valid_weighted", True, item_of(i))
                       for j in range(nc)] for i in range(nr)]
         else:
             exp_u = orc.matrix("count", False)
@@ -298,7 +309,7 @@ def check(space, state):
             for m in numeric["measures"]:
                 if sch.weighted and m in ("median", "stddev"):
                     continue
-                exp = [[_numeric_expect(orc.members(i, j), m, sch.weighted, i if numarr else None, empty_sum=es)
+                exp = [[_numeric_expect(orc.members(i, j), m, sch.weighted, item_of(i), empty_sum=es)
                         for j in range(nc)] for i in range(nr)]
                 prop = {"mean": "means", "sum": "sums", "stddev": "stddev", "median": "medians"}[m]
                 cmp("slice", prop, getattr(part, prop), exp, pidx)
